@@ -1,4 +1,6 @@
 import CrdtModel.Audit.Tool
+import CrdtModel.Props.Addenda
+import CrdtModel.Witness.NestedMore
 import CrdtModel.Props.C10
 import CrdtModel.Witness.ZeroBreaksCmp
 #audit_ns Crdt.C10
